@@ -635,7 +635,11 @@ pub fn file_object(p: &FileObj, reference: &[u8]) -> FileObjOut {
                 user_name: &p.s1,
                 password: &p.s2,
             };
-            FileObjOut { original: format!("{o:?}"), encoded: enc!(o), decoded: dec!(Group70Var2) }
+            FileObjOut {
+                original: format!("{o:?}"),
+                encoded: enc!(o),
+                decoded: dec!(Group70Var2),
+            }
         }
         3 => {
             let o = Group70Var3 {
@@ -648,7 +652,11 @@ pub fn file_object(p: &FileObj, reference: &[u8]) -> FileObjOut {
                 request_id: p.d,
                 file_name: &p.s1,
             };
-            FileObjOut { original: format!("{o:?}"), encoded: enc!(o), decoded: dec!(Group70Var3) }
+            FileObjOut {
+                original: format!("{o:?}"),
+                encoded: enc!(o),
+                decoded: dec!(Group70Var3),
+            }
         }
         4 => {
             let o = Group70Var4 {
@@ -659,7 +667,11 @@ pub fn file_object(p: &FileObj, reference: &[u8]) -> FileObjOut {
                 status_code: file_status(p.code as u8),
                 text: &p.s1,
             };
-            FileObjOut { original: format!("{o:?}"), encoded: enc!(o), decoded: dec!(Group70Var4) }
+            FileObjOut {
+                original: format!("{o:?}"),
+                encoded: enc!(o),
+                decoded: dec!(Group70Var4),
+            }
         }
         5 => {
             let o = Group70Var5 {
@@ -667,7 +679,11 @@ pub fn file_object(p: &FileObj, reference: &[u8]) -> FileObjOut {
                 block_number: p.b,
                 file_data: &p.data,
             };
-            FileObjOut { original: format!("{o:?}"), encoded: enc!(o), decoded: dec!(Group70Var5) }
+            FileObjOut {
+                original: format!("{o:?}"),
+                encoded: enc!(o),
+                decoded: dec!(Group70Var5),
+            }
         }
         6 => {
             let o = Group70Var6 {
@@ -676,7 +692,11 @@ pub fn file_object(p: &FileObj, reference: &[u8]) -> FileObjOut {
                 status_code: file_status(p.code as u8),
                 text: &p.s1,
             };
-            FileObjOut { original: format!("{o:?}"), encoded: None, decoded: dec!(Group70Var6) }
+            FileObjOut {
+                original: format!("{o:?}"),
+                encoded: None,
+                decoded: dec!(Group70Var6),
+            }
         }
         7 => {
             let o = Group70Var7 {
@@ -691,13 +711,21 @@ pub fn file_object(p: &FileObj, reference: &[u8]) -> FileObjOut {
                 request_id: p.d,
                 file_name: &p.s1,
             };
-            FileObjOut { original: format!("{o:?}"), encoded: enc!(o), decoded: dec!(Group70Var7) }
+            FileObjOut {
+                original: format!("{o:?}"),
+                encoded: enc!(o),
+                decoded: dec!(Group70Var7),
+            }
         }
         _ => {
             let o = Group70Var8 {
                 file_specification: &p.s1,
             };
-            FileObjOut { original: format!("{o:?}"), encoded: None, decoded: dec!(Group70Var8) }
+            FileObjOut {
+                original: format!("{o:?}"),
+                encoded: None,
+                decoded: dec!(Group70Var8),
+            }
         }
     }
 }
@@ -715,7 +743,9 @@ pub fn attr_value_roundtrip(
             Ok(buf[..n].to_vec())
         }
         Err(crate::app::attr::AttrWriteError::Cursor) => Err("Cursor".to_string()),
-        Err(crate::app::attr::AttrWriteError::BadAttribute(b)) => Err(format!("BadAttribute({b:?})")),
+        Err(crate::app::attr::AttrWriteError::BadAttribute(b)) => {
+            Err(format!("BadAttribute({b:?})"))
+        }
     };
     let decoded = match &encoded {
         Ok(b) => {
